@@ -548,6 +548,15 @@ static void on_io(int fd, bool out, size_t n) {
 		if (x.in_group >= 0) { Group &g = R->grp[x.in_group]; g.ledger[d][wall_ms() / g.tick_ms] += (int64_t)n; }
 	}
 }
+// an injected EINTR / EAGAIN: the readiness event was consumed without a transfer, and libevent's persistent event starts
+// its timeout interval again. DESIGN.md (C20) allows the firing instant to lie in [last transfer + T, last attempt + T]
+static void on_io_retry(int fd, bool out) {
+	for (int i = 0; i < R->nend; i++) {
+		End &x = R->e[i];
+		if (!x.exists || x.freed || !x.is_sock || x.fd != fd) continue;
+		if (out) { x.w_start = now_us(); x.w_due_seen = 0; } else { x.r_start = now_us(); x.r_due_seen = 0; }
+	}
+}
 static void check_windows(const std::map<int64_t, int64_t> &led, int64_t rate, int64_t burst, int64_t extra, const char *who, int id, const char *dir) {
 	// for every window of k consecutive ticks: bytes <= burst + k * rate (+ extra)
 	std::vector<std::pair<int64_t, int64_t>> v(led.begin(), led.end());
@@ -1177,6 +1186,7 @@ static void execute(const Plan &p) {
 	if (!run.base) { violation("C17.base-new", "no event base"); R = nullptr; return; }
 	tr("cfg backend=%s topo=%d", event_base_get_method(run.base), (int)p.c("topo"));
 	vk::io_ledger = on_io;
+	vk::io_retry = on_io_retry;
 	vk::accept_hook = on_accept;
 	build_topology(p);
 	if (p.c("listener")) {
